@@ -41,7 +41,7 @@ def build(chk):
     rng = chk.rng
     quick = chk.tier == "quick"
     progs = []
-    ws = [0, 1, 2, 3] + ([] if quick else [4])
+    ws = [0, 1, 2, 3, 4]
     for w in ws:
         iters = 1 << (1 << w)
         if iters <= 16:
@@ -49,7 +49,7 @@ def build(chk):
         elif iters == 256:
             exits = sorted({0, 1, 2, 15, 16, 17, 127, 128, 254, 255} | {rng.randrange(256) for _ in range(4 if quick else 40)}) + ["none"]
         else:
-            exits = sorted({0, 1, 255, 256, 257, 32767, 32768, 65534, 65535} | {rng.randrange(65536) for _ in range(6)}) + ["none"]
+            exits = (sorted({1, 256, 65535}) if quick else sorted({0, 1, 255, 256, 257, 32767, 32768, 65534, 65535} | {rng.randrange(65536) for _ in range(6)})) + ["none"]
         for ex in exits:
             for mode in ("exit", "panic_after"):
                 ftext, ctxty = body(w, mode)
